@@ -167,11 +167,13 @@ def materialize(interp, name, td, depth=0):
     raise Unsupported(f"type descriptor {k}")
 
 
-def run_harness(loaded: Loaded, ob, cfg):
+def run_harness(loaded: Loaded, ob, cfg, shard=None):
     """Explore all paths of one obligation harness.  Returns a JSON-able summary."""
     interp = loaded.interp
     f = ob["func"]
-    opts = ob["opts"]
+    opts = dict(ob["opts"])
+    if shard is not None:
+        opts["shard"] = shard
     verifies = opts.get("verifies")
     if isinstance(verifies, str):
         verifies = [verifies]
@@ -227,6 +229,8 @@ def run_harness(loaded: Loaded, ob, cfg):
         notes |= set(r.notes)
         if r.end == "ok":
             n_ok += 1
+        elif r.end == "other-shard":
+            continue
         elif r.end != "infeasible":
             problems.append(r.end)
         for o in r.obls:
@@ -252,7 +256,8 @@ def run_harness(loaded: Loaded, ob, cfg):
             "trusted": sorted(trusted), "covers": sorted(covers), "notes": sorted(notes),
             "summaries_used": sorted(interp.used_summaries), "inlined": sorted(interp.inlined),
             "verifies": list(verifies or []), "solver_secs": round(solver_secs, 3), "solver_calls": solver_calls,
-            "wall_s": round(time.time() - t0, 3), "bounded": opts.get("bounded")}
+            "wall_s": round(time.time() - t0, 3), "bounded": opts.get("bounded"),
+            "own_paths": sum(1 for r in results if r.end != "other-shard")}
 
 
 def func_hashes(interp, qualnames):
